@@ -224,6 +224,7 @@ def run():
     print(f"[*] Checking for TLS traffic on these ports: {server_ports}")
 
     for ts, buf in pcap_reader:
+        ts = float(ts)  # dpkt yields Decimal timestamps for nanosecond-resolution pcap files
         if ts == -1:
             keylog.extend(keylog_reader.get_keys_from_string(buf.decode('ascii')))  # adds secrets from decryption secret block to keylog
             continue
